@@ -52,6 +52,95 @@ def sched_tasks(tier):
   return out
 
 
+def sharded_tasks(tier):
+  grid = [(2, 3, 1), (3, 2, 2)] if tier == 'quick' else [(s, q, t0) for s in (1, 2, 3) for q in (1, 2, 3) for t0 in (0, 2)]
+  return [dict(kind='ds_sharded', cfg=dict(c02.BASE, s=s, q=q, start=t0, block_size=4, graft='RMSPROP'), shapes=[[3], [2, 2]], D=2)
+          for (s, q, t0) in grid]
+
+
+def sharded_work(task):
+  """cadence of the sharded variant (global statistics / preconditioners, local metrics)"""
+  t0_ = time.time()
+  c = dsh.full_cfg(task['cfg'])
+  shapes = [tuple(x) for x in task['shapes']]
+  s, q, t0 = c['s'], c['q'], c['start']
+  tag = f"DS-sharded|{'+'.join('x'.join(map(str, x)) for x in shapes)}|D={task['D']}|s={s},q={q},t0={t0}"
+  dsh.install_root_stub()
+  params = dsh.zeros_tree(shapes)
+  tr, state0, opt, mesh = dsh.trace_sharded(c, params, task['D'])
+  I = Interp(Ctx())
+  leaves = tr.sym_inputs()
+  for k, nm in enumerate(tr.names):
+    if nm.endswith('.exponents'):
+      leaves[k] = np.asarray(tr.flat[k])
+  g_, st_, p_ = tr.unflatten_in(leaves)
+  upd, new = tr.run(I, leaves)
+  count = st_.count.item()
+  rng = [count >= 0, count <= 2 ** 31 - 2]
+  P = Prover(timeout_s=30, first_s=1.0)
+  P.equal(f'{tag}|K1 count+1', new.count, np.array(R.s_add(count, 1), dtype=object), rng)
+  gs_old, gs_new = st_.stats.global_stats, new.stats.global_stats
+  nreal = sum(len(state0.stats.local_stats[k].sizes) for k in params)
+  sizes = [sz for k in sorted(params) for sz in state0.stats.local_stats[k].sizes]
+  real = lambda A: np.concatenate([toobj(A[i])[:sizes[i], :sizes[i]].reshape(-1) for i in range(nreal)])
+  if s > 1:
+    P.equal(f'{tag}|K2 global statistics (real blocks) unchanged when count % s != 0', real(gs_new.statistics), real(gs_old.statistics), rng + [count % s != 0])
+    d = differing(real(gs_new.statistics), real(gs_old.statistics))
+    P.reach(f'{tag}|K2 twin: statistics can change on-step', rng + [count % s == 0], [z3.Or([a != b for a, b in d])] if d else [z3.BoolVal(False)])
+  if q > 1:
+    P.equal(f'{tag}|K3 global preconditioners (all slots) unchanged when count % q != 0', toobj(gs_new.preconditioners).reshape(-1),
+            toobj(gs_old.preconditioners).reshape(-1), rng + [count % q != 0])
+    unchanged(P, f'{tag}|K3 metrics unchanged when count % q != 0', {k: v.training_metrics for k, v in new.stats.local_stats.items()},
+              {k: v.training_metrics for k, v in st_.stats.local_stats.items()}, rng + [count % q != 0])
+    d = differing(real(gs_new.preconditioners), real(gs_old.preconditioners))
+    P.reach(f'{tag}|K3 twin: preconditioners can change on-step', rng + [count % q == 0], [z3.Or([a != b for a, b in d])] if d else [z3.BoolVal(False)])
+  slot = 0
+  for key in sorted(params):
+    ref = DSRef(c, tuple(params[key].shape), I)
+    for k in range(ref.nstat):
+      i = slot + k
+      root, err = root_uf(toobj(gs_new.statistics[i])[:sizes[i], :sizes[i]], ref.exponent)
+      want = emap(lambda r_, o_: R.s_if(R.s_not(R.s_ge(err, f32(c['thr']))), r_, o_), root, toobj(gs_old.preconditioners[i])[:sizes[i], :sizes[i]])
+      P.equal(f'{tag}|K4 global preconditioner[{i}] = gate(ROOT(new statistics)) when count % q == 0',
+              toobj(gs_new.preconditioners[i])[:sizes[i], :sizes[i]], want, rng + ([count % q == 0] if q > 1 else []), [err >= R.rlit(f32(c['thr']))])
+    slot += ref.nstat
+  res, viol = finish(P, task, tag)
+  return dict(results=res, violations=viol, errors=[], configs=1,
+              samples=[dict(kind='ds_sharded', config=task['cfg'], shapes=task['shapes'], jaxpr_eqns=tr.n_eqns)],
+              extra=dict(jaxpr_eqns_total=tr.n_eqns, eval_s=round(time.time() - t0_, 2)))
+
+
+def sharded_concrete(task, seed=0):
+  c = dsh.full_cfg(task['cfg'])
+  shapes = [tuple(x) for x in task['shapes']]
+  s, q = c['s'], c['q']
+  dsh.uninstall_root_stub()
+  try:
+    rng = np.random.RandomState(seed)
+    params = {f'p{i}': jnp.asarray(rng.randn(*sh), jnp.float32) for i, sh in enumerate(shapes)}
+    tr, state, opt, mesh = dsh.trace_sharded(c, params, task['D'])
+    with mesh:
+      upd = jax.jit(opt.update)
+      for t in range(2 * s * q + 3):
+        g = {k: jnp.asarray(rng.randn(*v.shape), jnp.float32) for k, v in params.items()}
+        u, new = upd(g, state, params)
+        a, b = state.stats.global_stats, new.stats.global_stats
+        if int(new.count) != int(state.count) + 1:
+          return f'step {t}: counter advanced by {int(new.count) - int(state.count)}'
+        if t % s != 0 and bits(a.statistics) != bits(b.statistics):
+          return f'step {t}: sharded statistics changed although {t} % {s} != 0'
+        if t % s == 0 and bits(a.statistics) == bits(b.statistics):
+          return f'step {t}: sharded statistics did not change although {t} % {s} == 0'
+        if t % q != 0 and bits(a.preconditioners) != bits(b.preconditioners):
+          return f'step {t}: sharded preconditioners changed although {t} % {q} != 0'
+        if t % q != 0 and bits({k: v.training_metrics for k, v in state.stats.local_stats.items()}) != bits({k: v.training_metrics for k, v in new.stats.local_stats.items()}):
+          return f'step {t}: sharded metrics changed although {t} % {q} != 0'
+        state = new
+    return None
+  finally:
+    dsh.install_root_stub()
+
+
 def sched_pieces(q0, end, limit=4000):
   """the documented interval q_t = max(floor((q0 + (1 - lr(t)/lr(0)) * end) / 10) * 10, 1) for lr(t) = lr0/(1+t):
   maximal runs [a, b] of step indices with constant q_t (b = None for the final, unbounded run)"""
@@ -334,6 +423,13 @@ def ds_cadence_concrete(c, shape, seed=0):
 
 
 def confirm(task):
+  if task['kind'] == 'ds_sharded':
+    for seed in (0, 1):
+      what = sharded_concrete(task, seed)
+      if what:
+        path = write_replay(PID, dict(property=PID, kind='ds_sharded', task=task, seed=seed, observed=what))
+        return dict(what=what, replay=path)
+    return None
   if task['kind'] == 'ds_sched':
     for seed in (0, 1):
       what = sched_concrete(task, seed)
@@ -356,7 +452,9 @@ def confirm(task):
 
 def replay(path):
   d = json.load(open(path))
-  if d['kind'] == 'ds_sched':
+  if d['kind'] == 'ds_sharded':
+    what = sharded_concrete(d['task'], d['seed'])
+  elif d['kind'] == 'ds_sched':
     what = sched_concrete(d['task'], d['seed'])
   elif d['kind'] == 'ds':
     what, _, _ = ds_cadence_concrete(d['config'], tuple(d['shape']), d['seed'])
@@ -376,6 +474,8 @@ def work(task):
     return ds_work(task)
   if task['kind'] == 'ds_sched':
     return sched_work(task)
+  if task['kind'] == 'ds_sharded':
+    return sharded_work(task)
   from . import c04_tf
   return c04_tf.work(task)
 
@@ -391,7 +491,7 @@ def run(rep):
       'unchanged-obligation has an on-step reachability twin.')
   rep.encode('precondition.distributed_shampoo.distributed_shampoo.update_fn (+_compute_stats, _pmap_compute_preconditioners, '
              '_update_preconditioners_fn, efficient_cond, _transform_grad)', 'precondition/distributed_shampoo.py')
-  ts = ds_tasks(rep.tier) + sched_tasks(rep.tier)
+  ts = ds_tasks(rep.tier) + sched_tasks(rep.tier) + sharded_tasks(rep.tier)
   try:
     from . import c04_tf
     ts += c04_tf.tasks(rep.tier)
@@ -400,7 +500,7 @@ def run(rep):
     pass
   rep.bounds = dict(step_counter='symbolic 0..2^31-2 (not bounded by a history length)', tasks=len(ts),
                     grid='(s,q,t0) in {1,2,3}^2 x {0,1,2}' if rep.tier == 'quick' else '(s,q,t0) in {1,2,3,5,8}^2 x {0,1,2,7}',
-                    shapes=sorted({str(tuple(t['shape'])) for t in ts if 'shape' in t}))
+                    shapes=sorted({str(tuple(t['shape'])) for t in ts if 'shape' in t}), sharded='trees {(3,),(2,2)} with declared D=2 under a one-device mesh')
   rep.stubs = ['matrix_inverse_pth_root -> ROOT/ERR uninterpreted functions of the unpadded block']
   rep.assumptions = ['exact real arithmetic: "bit-identical" is proved as term identity (the state is passed through, not recomputed)',
                      'int32 wrap-around of the counter at 2^31-1 excluded']
